@@ -154,6 +154,17 @@ func c09(c *Ctx) {
 		sort.Slice(entries, func(i, j int) bool { return entries[i].String() < entries[j].String() })
 		c.noGlobalWrites("R09.P", entries, "the client's paths: two clients of one process would share it")
 	}
+	r.Rule("R09.V", "no goroutine or deferred function literal started inside a loop captures a variable that is one cell for the whole loop and is stored on every iteration (go 1.13 loop-variable semantics: every item of a container would be processed as the last one)", 1)
+	{
+		var fns []*ssa.Function
+		for f := range c.P.AllFunctions() {
+			if c.inRepo(f) && len(f.Blocks) > 0 && f.Synthetic == "" {
+				fns = append(fns, f)
+			}
+		}
+		sort.Slice(fns, func(i, j int) bool { return fns[i].String() < fns[j].String() })
+		c.noSharedLoopVariableInGoroutines("R09.V", fns)
+	}
 	r.Rule("R09.M", "the table mutexes are given back on every path to a return (= R16.M filed under C09)", 10)
 	c.locksReleased("R09.M", c.repoFunctionsWithLocks())
 	r.Rule("R09.B", "the body stored in the outgoing message is the result of tl.Marshal(request) itself, and the bytes handed to the decoder in processResponse are the message's GetMsg() itself (nothing trimmed, re-sliced or re-encoded in between)", 3)
@@ -217,42 +228,7 @@ func c09(c *Ctx) {
 		}
 	}
 	r.Rule("R09.W", "a result that travels gzip_packed inside rpc_result is delivered unwrapped: the value handed to writeRPCResponse in the rpc_result arm is the result's Obj or, behind a successful assertion to *GzipPacked, that wrapper's Obj", 1)
-	if pr := c.P.Func(load.RootMod, "*MTProto", "processResponse"); pr != nil {
-		n := 0
-		for _, cs := range an.Calls(pr) {
-			if !strings.HasSuffix(cs.Name, "MTProto).writeRPCResponse") {
-				continue
-			}
-			args := an.CallArgs(cs.Common)
-			if len(args) < 3 {
-				continue
-			}
-			n++
-			v := args[2]
-			unwraps := false
-			var walk func(x ssa.Value, d int)
-			walk = func(x ssa.Value, d int) {
-				if d > 6 {
-					return
-				}
-				switch y := x.(type) {
-				case *ssa.Phi:
-					for _, e := range y.Edges {
-						walk(e, d+1)
-					}
-				case *ssa.UnOp:
-					if fa, ok := y.X.(*ssa.FieldAddr); ok && strings.HasSuffix(an.FieldName(fa.X.Type(), fa.Field), "objects.GzipPacked.Obj") {
-						unwraps = true
-					}
-				}
-			}
-			walk(v, 0)
-			r.Check(unwraps, "R09.W", sprintf("result:unwrapped-from-gzip#%d", n), c.pos(cs.Pos()), "one of the values delivered is the Obj of a *GzipPacked found in the result: a packed result (object, Bool, rpc_error) reaches its caller as what it is; delivered: "+simplifyOrigin(an.NewTracer().OriginString(v)))
-		}
-		if n == 0 {
-			r.Undecide("R09.W", "result:unwrapped-from-gzip", c.pos(pr.Pos()), "no writeRPCResponse call in processResponse")
-		}
-	}
+	c.packedResultUnwrapped("R09.W")
 	r.Rule("R09.F", "an entry leaves the response table only when its waiter has been served or told to retry: Delete on the table is called from writeRPCResponse and processResponse only (a cleanup that evicts the oldest keys evicts the callers that have waited longest)", 1)
 	{
 		allowed := map[string]bool{"writeRPCResponse": true, "processResponse": true}
@@ -283,6 +259,7 @@ func c09(c *Ctx) {
 			r.Check(len(bad) == 0, "R09.F", "forget:only-when-served", "", sprintf("%d call(s) of the table's Delete; outside the delivery and the retry notification: %s", n, strings.Join(bad, "; ")))
 		}
 	}
+	c.forgetOnlyTheEntryServed("R09.F")
 	r.Rule("R09.D", "deliver and forget: the result is handed over by a send that cannot be skipped, and every delivering path passes Delete on both tables with the same key", 4)
 	r.Rule("R09.C", "fresh channel: the channel registered for a request is a make(chan) of this call", 1)
 	tr := an.NewTracer()
@@ -680,6 +657,8 @@ func c11(c *Ctx) {
 		}
 	}
 
+	r.Rule("R11.F", "the rotation handler forgets only the entry it notifies: the key of every Delete in processResponse / writeRPCResponse is the key of the Get that found the waiter (requests accepted before the rotation keep their entries and get their answers)", 2)
+	c.forgetOnlyTheEntryServed("R11.F")
 	r.Rule("R11.M", "the notification mutex (and every other mutex of the client) is given back on every path out of the handler that takes it: the second rotation finds it free", 10)
 	c.locksReleased("R11.M", c.repoFunctionsWithLocks())
 
@@ -1048,5 +1027,141 @@ func (c *Ctx) receiveSendsTargeted(rule string) {
 	}
 	if n == 0 {
 		r.Undecide(rule, "receive-send", "", "no channel send found in processResponse / writeRPCResponse")
+	}
+}
+
+// noSharedLoopVariableInGoroutines: the module declares go 1.13, so a range / for variable is ONE variable for the
+// whole loop.  A goroutine (or deferred call) started in the loop body that captures it reads whatever the loop has
+// stored by the time it runs - usually the last element.  Per `go` / `defer` of a function literal inside a loop: no
+// captured cell that is allocated outside the loop body is stored to inside the loop.
+func (c *Ctx) noSharedLoopVariableInGoroutines(rule string, fns []*ssa.Function) {
+	r := c.R
+	n, sites := 0, 0
+	for _, f := range fns {
+		n++
+		k := 0
+		for _, b := range f.Blocks {
+			if !reachesBlockStrict(b, b) {
+				continue // not in a loop
+			}
+			for _, in := range b.Instrs {
+				var fnv ssa.Value
+				switch x := in.(type) {
+				case *ssa.Go:
+					fnv = x.Call.Value
+				case *ssa.Defer:
+					fnv = x.Call.Value
+				}
+				mc, ok := fnv.(*ssa.MakeClosure)
+				if !ok {
+					continue
+				}
+				sites++
+				k++
+				var bad []string
+				for _, bind := range mc.Bindings {
+					cell, ok := bind.(*ssa.Alloc)
+					if !ok {
+						continue
+					}
+					// allocated once (outside every cycle through this block) and written inside the loop?
+					if reachesBlockStrict(cell.Block(), cell.Block()) && reachesBlockStrict(b, cell.Block()) && reachesBlockStrict(cell.Block(), b) {
+						continue // a fresh cell per iteration
+					}
+					for _, ref := range *cell.Referrers() {
+						if st, ok := ref.(*ssa.Store); ok && st.Addr == ssa.Value(cell) && reachesBlockStrict(st.Block(), st.Block()) && reachesBlockStrict(st.Block(), b) && reachesBlockStrict(b, st.Block()) {
+							bad = append(bad, "the variable "+cell.Comment+" is one cell for the whole loop, stored at "+c.pos(st.Pos())+" on every iteration and read by the function started here")
+							break
+						}
+					}
+				}
+				r.Check(len(bad) == 0, rule, sprintf("loop-variable-not-shared:%s#%d", an.ShortName(f), k), c.pos(in.Pos()), strings.Join(bad, "; "))
+			}
+		}
+	}
+	if sites == 0 {
+		r.Hold(rule, "loop-variable-not-shared:none", "", sprintf("%d functions, no goroutine or deferred literal started inside a loop", n))
+	}
+}
+
+// forgetOnlyTheEntryServed: inside the two functions that may forget a table entry, the key handed to Delete (on
+// either table) is the very key of a Get in the same function - the entry that was looked up and is being served or
+// told to retry - not a key computed otherwise (an older id, every id below a bound, a range over Keys()).
+func (c *Ctx) forgetOnlyTheEntryServed(rule string) {
+	r := c.R
+	n := 0
+	for _, name := range []string{"processResponse", "writeRPCResponse"} {
+		f := c.P.Func(load.RootMod, "*MTProto", name)
+		if f == nil {
+			continue
+		}
+		for _, g := range an.WithAnon(f) {
+			looked := map[ssa.Value]bool{}
+			for _, cs := range an.Calls(g) {
+				if cs.Name == "(*"+load.UtilsPkg+".SyncIntObjectChan).Get" {
+					if args := an.CallArgs(cs.Common); len(args) == 2 {
+						looked[args[1]] = true
+					}
+				}
+			}
+			k := 0
+			for _, cs := range an.Calls(g) {
+				if cs.Name != "(*"+load.UtilsPkg+".SyncIntObjectChan).Delete" && cs.Name != "(*"+load.UtilsPkg+".SyncIntReflectTypes).Delete" {
+					continue
+				}
+				args := an.CallArgs(cs.Common)
+				if len(args) != 2 {
+					continue
+				}
+				n++
+				k++
+				r.Check(looked[args[1]], rule, sprintf("forget:the-entry-looked-up:%s#%d", name, k), c.pos(cs.Pos()), "the key handed to Delete is the key of a Get of the response table in the same function (the entry being served); here it is "+simplifyOrigin(an.NewTracer().OriginString(args[1])))
+			}
+		}
+	}
+	if n == 0 {
+		r.Undecide(rule, "forget:the-entry-looked-up", "", "no Delete on the waiter / hint tables in processResponse and writeRPCResponse")
+	}
+}
+
+// packedResultUnwrapped: the value handed to writeRPCResponse in processResponse is rpc_result.Obj with a
+// *GzipPacked wrapper taken off.
+func (c *Ctx) packedResultUnwrapped(rule string) {
+	r := c.R
+	if pr := c.P.Func(load.RootMod, "*MTProto", "processResponse"); pr != nil {
+		n := 0
+		for _, cs := range an.Calls(pr) {
+			if !strings.HasSuffix(cs.Name, "MTProto).writeRPCResponse") {
+				continue
+			}
+			args := an.CallArgs(cs.Common)
+			if len(args) < 3 {
+				continue
+			}
+			n++
+			v := args[2]
+			unwraps := false
+			var walk func(x ssa.Value, d int)
+			walk = func(x ssa.Value, d int) {
+				if d > 6 {
+					return
+				}
+				switch y := x.(type) {
+				case *ssa.Phi:
+					for _, e := range y.Edges {
+						walk(e, d+1)
+					}
+				case *ssa.UnOp:
+					if fa, ok := y.X.(*ssa.FieldAddr); ok && strings.HasSuffix(an.FieldName(fa.X.Type(), fa.Field), "objects.GzipPacked.Obj") {
+						unwraps = true
+					}
+				}
+			}
+			walk(v, 0)
+			r.Check(unwraps, rule, sprintf("result:unwrapped-from-gzip#%d", n), c.pos(cs.Pos()), "one of the values delivered is the Obj of a *GzipPacked found in the result: a packed result (object, Bool, rpc_error) reaches its caller as what it is; delivered: "+simplifyOrigin(an.NewTracer().OriginString(v)))
+		}
+		if n == 0 {
+			r.Undecide(rule, "result:unwrapped-from-gzip", c.pos(pr.Pos()), "no writeRPCResponse call in processResponse")
+		}
 	}
 }
